@@ -789,6 +789,7 @@ Definition known_sites : list (site * cover) := [
   (mk_site (s "crates/plugin/src/model_plugin/mod.rs") (s "transform_document_for_runtime_server") (s "directives") (s "iter") 2, NotHash ast_directives);
   (mk_site (s "crates/plugin/src/model_plugin/mod.rs") (s "transform_resolver_output_types") (s "directives") (s "iter") 2, NotHash ast_directives);
   (mk_site (s "crates/printer/src/operation_type_printer/type_printer.rs") (s "check_skip_directive") (s "directives") (s "for") 1, NotHash ast_directives);
+  (mk_site (s "crates/printer/src/operation_type_printer/type_printer.rs") (s "get_boolean_variables") (s "directives") (s "for") 1, NotHash ast_directives);
   (mk_site (s "crates/printer/src/schema_type_printer/context.rs") (s "get_bag_of_identifiers") (s "scalar_types") (s "values") 1,
      ByLemma "bag_mem_oracle_irrelevant" _ bag_mem_oracle_irrelevant);
   (mk_site (s "crates/printer/src/schema_type_printer/context.rs") (s "get_scalar_types") (s "directives") (s "iter") 1, NotHash ast_directives);
